@@ -91,6 +91,12 @@ CLAIMED = {
             "a pool of awkward constants and pickle refresh are concrete fixture self-checks, reported separately in the evidence.",
             "Bounds: 5 templates (quick), histories of <=2 writes, ints |v|<=99; files are produced before the analysis; one known finding (non-BMP text through json).",
             "DESIGN.md 4/C03"),
+    "C04": ("model_checking",
+            "CrossHair symbolic execution of formula evaluation with instrumented read paths (_C_/_R_), checked against needed_addresses and the dependency graph for all cell values and selector arguments",
+            "Every run-time read made while evaluating each enumerated reference form is recorded (instance-level wrappers, no source hook) and must be a declared precedent or lie inside a declared "
+            "range, with a graph path precedent -> reader; the ancestors of the formula must contain every cell read. Values and the INDEX/CHOOSE/IF selectors are symbolic, so all value-dependent read paths are covered.",
+            "Bounds: 16 formula cells of one two-sheet template plus 5 set_value-then-evaluate variants; ints |v|<=99, selectors 0..3; OFFSET/INDIRECT excluded by the statement.",
+            "DESIGN.md 4/C04"),
 }
 
 NOT_YET = "check not built yet in this round (machinery under construction); see DESIGN.md section 4"
